@@ -56,6 +56,32 @@ def gen_depth(root, facts):
             "exported_names": sorted(f["name"] for f in fns if f["exported"]),
             "unknown_edges": [(f["name"], e["src"], e["pos"]) for f in fns for e in (f["edges"] or []) if not e["known"]]}
 
+def _site(s):
+    return "(%s, %s, %s)" % tuple(lean_plain(x) for x in (s["pkg"], s["func"], s["what"]))
+
+def lean_plain(s):
+    return '"%s"' % s.replace("\\", "\\\\").replace('"', '\\"')
+
+def gen_effects(root, facts):
+    rm = facts.get("recv_mutations") or []
+    gw = facts.get("global_writes") or []
+    sf = facts.get("sync_fields") or []
+    et = facts.get("error_types") or []
+    lines = ["/- GENERATED on every run by tools/extractors.py from /repo's source (go/extract effects). Do not edit. -/",
+             "namespace ErrModel.Effects", "",
+             "/-- the types of the repository that have an Error() method -/",
+             "def errorTypes : List String := [" + ", ".join(lean_plain(t) for t in et) + "]", "",
+             "/-- (package, method, lvalue): writes through the receiver in a method of an error type -/",
+             "def recvMutations : List (String × String × String) := [" + ", ".join(_site(s) for s in rm) + "]", "",
+             "/-- (package, function, lvalue): writes to package-level variables outside init -/",
+             "def globalWrites : List (String × String × String) := [" + ",\n  ".join(_site(s) for s in gw) + "]", "",
+             "/-- (package, type, field type): fields of error types that mention sync. or atomic. -/",
+             "def syncFields : List (String × String × String) := [" + ", ".join(_site(s) for s in sf) + "]", "",
+             "def functionsScanned : Nat := %d" % facts.get("functions", 0), "",
+             "end ErrModel.Effects", ""]
+    _write_if_changed(os.path.join(root, "lean", "ErrModel", "Generated", "EffectsFacts.lean"), "\n".join(lines))
+    return {"error_types": len(et), "functions": facts.get("functions", 0), "recv_mutations": rm, "global_writes": len(gw), "sync_fields": sf}
+
 def run(root, pid, work, env):
     if pid not in GEN:
         return None
@@ -71,6 +97,8 @@ def run(root, pid, work, env):
                 continue
             if what == "depth":
                 summary[what] = gen_depth(root, facts)
+            elif what == "effects":
+                summary[what] = gen_effects(root, facts)
             elif what == "ctors":
                 import extract_ctors
                 summary[what] = extract_ctors.gen(root, facts, _write_if_changed)
